@@ -50,3 +50,8 @@ Definition verdict_corr (c : verdict_case) : bool := Bool.eqb (verdict (fst c)) 
 Definition verdict_monitor (c : verdict_case) : bool :=
   Bool.eqb (snd c)
     (forallb (fun n => existsb (fun t => N.eqb (fst t) n && ok_status (snd t)) (fst c)) (map fst (fst c))).
+
+(* replayed jobs (None: missing file / no tests list), the implementation's previous_results (None: it raised) *)
+Definition replay_case : Type := list (option (list (N * N))) * option (list (N * N)).
+Definition replay_corr (c : replay_case) : bool :=
+  option_eqb (list_eqb (pair_eqb N.eqb N.eqb)) (previous_results (fst c)) (snd c).
